@@ -558,3 +558,34 @@ Theorem C11_resegment_total_all :
     read_all (read_back tx pos0 []) fes = Ok outs /\ concat outs = map to_full ss.
 Proof. exact resegment_total_all. Qed.
 Print Assumptions C11_resegment_total_all.
+
+(* the multiplexed writer in total form (no trun optimisation, as the tool runs: NewMediaSegment sets OptimizeNone):
+   for tracks with pairwise different ids, consistent tables pointing into the file, interval lists of one common
+   length that tile each track in order, and every segment below 2 GiB (mux_seg_small: a condition on the tables),
+   makeMultiTrackSegments' loop returns without error and every track reads back as its expansion *)
+From V.c11 Require Import C11MuxTotalProofs.
+Theorem C11_segmenter_mux_total : forall (f : pfile) pos0 (trs : list strack) nsegs,
+  NoDup (map st_id trs) -> trs <> [] -> total_samples trs < 4294967296 -> (1 <= nsegs)%nat ->
+  pos0 < 4611686018427387904 ->
+  Forall (fun t => C09Spec.consistent (st_tb t) = true /\ data_ok f (st_tb t) = true /\
+                   length (st_ivs t) = nsegs /\
+                   concat (map C11Model.range (st_ivs t)) = seqN1 (nsamples (st_tb t)) /\
+                   Forall (fun iv => fst iv <= snd iv + 1) (st_ivs t)) trs ->
+  forallb (mux_seg_small trs) (seq 0 nsegs) = true ->
+  exists fes, mux_segments false f trs nsegs = Ok fes /\
+    Forall (fun t => forall tx : C05Model.trex, tx_track tx = st_id t ->
+              exists outs, read_all (read_back tx pos0 []) fes = Ok outs /\
+                           map Some (concat outs) = expansion f (st_tb t)) trs.
+Proof. exact mux_total. Qed.
+Print Assumptions C11_segmenter_mux_total.
+
+(* the plan's intervals are ordered (start <= end + 1), the remaining hypothesis of the total forms *)
+Theorem C11_plan_ordered : forall (ts : list C11Model.track) d ivss,
+  wf_tracks ts = true -> small_tracks ts = true ->
+  segment_plan ts d = Ok ivss -> Forall (Forall (fun iv => fst iv <= snd iv + 1)) ivss.
+Proof. exact plan_ordered. Qed.
+Print Assumptions C11_plan_ordered.
+
+Example C11_segmenter_mux_total_example :
+  forallb (mux_seg_small [(ex_e2e_tb, 1, [(1, 4); (5, 7)]); (ex_e2e_audio_tb, 2, [(1, 3); (4, 5)])]) (seq 0 2) = true.
+Proof. vm_compute. reflexivity. Qed.
